@@ -90,8 +90,8 @@ fn check_case_fmt(c: &NetCase, obs: &mut Obs, format: FilterFormat) -> Result<()
 }
 
 /// Large same-shape groups: engine (optimisation off AND on) vs the per-rule scan. The scan
-/// shares one RegexManager for the whole case (each parsed rule keeps its address), so every
-/// rule's regex is compiled once.
+/// keeps one RegexManager per rule (each parsed rule keeps its address), so every rule's regex is
+/// compiled once and the scan does not depend on how the library caches many regexes.
 pub fn check_big_group(c: &NetCase, obs: &mut Obs) -> Result<(), String> {
     use adblock::filters::network::NetworkMatchable;
     let res = gen::std_resources();
@@ -99,12 +99,18 @@ pub fn check_big_group(c: &NetCase, obs: &mut Obs) -> Result<(), String> {
     let tags: HashSet<String> = c.tags.iter().cloned().collect();
     let parsed = parse_network(&c.rules);
     let active = active_rules(&parsed);
-    let mut rm = adblock::regex_manager::RegexManager::default();
+    // one manager per rule: the scan must not depend on how the library manages many regexes
+    let mut rms: Vec<adblock::regex_manager::RegexManager> = active.iter().map(|_| adblock::regex_manager::RegexManager::default()).collect();
     let reqs: Vec<_> = c.reqs.iter().filter_map(|r| mk_request(r).map(|q| (r, q))).collect();
     let specs: Vec<_> = reqs
         .iter()
         .map(|(r, q)| {
-            let hits: Vec<&Parsed> = active.iter().filter(|p| p.f.matches(q, &mut rm)).cloned().collect();
+            let mut hits: Vec<&Parsed> = vec![];
+            for (p, rm) in active.iter().zip(rms.iter_mut()) {
+                if p.f.matches(q, rm) {
+                    hits.push(*p);
+                }
+            }
             (hits.len(), combine(&hits, &tags, q, &r.url, &res))
         })
         .collect();
